@@ -27,7 +27,7 @@ func vfH_Burst() {
 	collide := vfParam("collide", 0) == 1
 	metrics := vfParam("metrics", 0) == 1
 	ttl := time.Duration(vfParam("ttl", 0))
-	nk := 3
+	nk := vfParam("nk", 3) // number of client keys (at most 4)
 	if vfParam("ticks", 0) > 0 && vfNative() {
 		// native replay only: the time scale of the repository's own tests (1 s buckets and ticker),
 		// so that "expired and swept" happens within seconds of real time
@@ -47,7 +47,7 @@ func vfH_Burst() {
 		// the striped metric counters are indexed by hash%25 (symbolic hashes would fork 25 ways per
 		// counter update): metrics scenarios use concrete key hashes in shards 0/1 with different
 		// stripes; the cell layout is checked for an arbitrary hash by vfH_C17_Cells
-		fixed := [3]uint64{6400, 6400*2 + 1, 6400*3 + 4352}
+		fixed := [4]uint64{6400, 6400*2 + 1, 6400*3 + 4352, 6400*4 + 257}
 		for i := 0; i < nk; i++ {
 			mon.hash[i] = fixed[i]
 			mon.conf[i] = uint64(i + 1)
@@ -76,9 +76,9 @@ func vfH_Burst() {
 	vfBegin()
 	doOps := func(ops int, tag int) {
 		for i := 0; i < ops; i++ {
-			var allowed [13]int
+			var allowed [14]int
 			n := 0
-			for b := 0; b < 13; b++ {
+			for b := 0; b < 14; b++ {
 				if menu&(1<<b) != 0 {
 					allowed[n] = b
 					n++
@@ -116,6 +116,8 @@ func vfH_Burst() {
 				mon.set(c, 2, 2, 0) // a heavier new key: needs more than one victim
 			case 12:
 				mon.set(c, 0, 0, ttl) // a TTL item that costs nothing
+			case 13:
+				mon.set(c, 3, 3, 0) // a fourth key as heavy as three others (needs nk=4)
 			}
 		}
 	}
